@@ -15,10 +15,14 @@ toolchain decides.  The dump the probe writes is turned into events and validate
 spec/DataModelTrace.tla (each method once; booleans as the contract says; names distinct / valid / uncaptured).
 
 COVERAGE TABLE
+  several per file       Multi family (orders generic->plain, plain->generic, generic(K,V)->generic(T), unexported in between): per-interface
+                         expectation (PROG.dms), per-interface assertions; nothing may be inherited from the interface rendered before.
+  imports exact          probe output under noop: a reported import no string uses is "imported and not used"; anonymous interfaces embedding
+                         a foreign / stdlib interface whose methods mention a third package (one stratum per embedded interface).
   each method once       dump validated by TLC (DataModelTrace.tla) against Sig.tla MethodSet, all families incl. Ext, universe embeds.
   strings denote types   probe sections decl / fwd / lists / named / names / paramacc / tparam compiled in-package, in a separate package and in
                          the external _test package, with an assertion file from the spec.  ABSENT: AcceptsContext with a non-stdlib package
-                         named context; accessors called with out-of-range ArgCallListSlice bounds; several interfaces per probe file.
+                         named context; accessors called with out-of-range ArgCallListSlice bounds.
   every Param accessor   for .Params AND .Returns (Variadic, TypeStringEllipsis, TypeStringVariadicUnderlying, MethodArg, CallName, Nillable,
                          Var.*): DataModel.tla ExpParam / ExpResult.  POINT: IsSlice is dumped but has no contract value (named slice types absent).
   names                  distinct / valid / not capturing, user-written and GENERATED (GenPre), blank identifiers.
